@@ -37,7 +37,7 @@ ASSUMPTIONS = [
 CHUNK = 1
 
 BACKENDS = ["sv", "svnoise", "mps", "dmrg", "mpsnoisy"]
-MODES = ["per_observable", "default", "mixed"]
+MODES = ["per_observable", "default", "mixed", "default_then_own"]
 
 
 def _dts(T, tier):
@@ -123,7 +123,14 @@ def run_case(case):
         label = f"T={T} dt={dt} backend={be} mode={mode} eval={list(ev)}"
         want = {}
         ckw = {}
-        if mode == "default" and not second:
+        if mode == "default_then_own":
+            if second or len(first) < 2:
+                continue
+            # first observable follows the config default (the first time), the second one brings its own times
+            obs = [mod.Occupation(evaluation_times=None), mod.Energy(evaluation_times=list(first[1:]))]
+            ckw["default_evaluation_times"] = list(first[:1])
+            want = {"occupation": list(first[:1]), "energy": list(first[1:])}
+        elif mode == "default" and not second:
             obs = [mod.Occupation(evaluation_times=None), mod.Energy(evaluation_times=None)]
             ckw["default_evaluation_times"] = list(first)
             want = {"occupation": first, "energy": first}
